@@ -7,17 +7,17 @@ from common import (nl_lines, CACHE, Lock, cached_json, ensure_oracle, framework
                     tool_error)
 
 FIELD_PROPS = {
-    "id": ["C14", "C02"], "idc": ["C14", "C02"], "ff": ["C14", "C02"], "ffc": ["C14", "C02"], "ns": ["C14"],
-    "reg": ["C03", "C02"], "regdom": ["C03", "C02"], "vir": ["C03", "C02"], "greek": ["C03", "C02"], "hebrew": ["C03", "C02"],
-    "kana": ["C03", "C02"], "ld": ["C03", "C02"], "rd": ["C03", "C02"],
+    "id": ["C14", "C02", "C18"], "idc": ["C14", "C02", "C18"], "ff": ["C14", "C02", "C18"], "ffc": ["C14", "C02", "C18"], "ns": ["C14"],
+    "reg": ["C03", "C02"], "regdom": ["C03", "C02"], "vir": ["C03", "C02", "C18"], "greek": ["C03", "C02", "C18"], "hebrew": ["C03", "C02", "C18"],
+    "kana": ["C03", "C02", "C18"], "ld": ["C03", "C02", "C18"], "rd": ["C03", "C02", "C18"],
     "mdl": ["C03", "C02"], "mdr": ["C03", "C02"], "aidx": ["C03", "C02"], "eaidx": ["C03", "C02"], "own": ["C03", "C02"],
-    "wm1": ["C11", "C04", "C07"], "wm2": ["C11", "C04", "C07"], "wm3": ["C11", "C04", "C07"], "wm4": ["C11", "C04", "C07"], "wm5": ["C11", "C04", "C07"], "osp4": ["C12", "C05", "C07"],
+    "wm1": ["C11", "C04", "C07", "C18"], "wm2": ["C11", "C04", "C07", "C18"], "wm3": ["C11", "C04", "C07", "C18"], "wm4": ["C11", "C04", "C07"], "wm5": ["C11", "C04", "C07"], "osp4": ["C12", "C05", "C07"],
     "lc1": ["C10", "C04", "C07"], "lc2": ["C10", "C07"], "lc3": ["C10", "C04", "C07"], "lc4": ["C10", "C04", "C07"], "lc5": ["C10", "C06", "C07"],
     "wm6": ["C11", "C04", "C07"], "wm7": ["C11", "C04", "C07"], "osp5": ["C12", "C05", "C07"], "osp6": ["C12", "C05", "C07"], "nsp4": ["C12", "C06", "C07"], "nsp5": ["C12", "C06", "C07"],
-    "osp": ["C12", "C05", "C07"], "nsp": ["C12", "C06", "C07"], "osp2": ["C12", "C05", "C07"], "nsp2": ["C12", "C06", "C07"], "osp3": ["C12", "C05", "C07"], "nsp3": ["C12", "C06", "C07"],
+    "osp": ["C12", "C05", "C07", "C18"], "nsp": ["C12", "C06", "C07", "C18"], "osp2": ["C12", "C05", "C07"], "nsp2": ["C12", "C06", "C07"], "osp3": ["C12", "C05", "C07"], "nsp3": ["C12", "C06", "C07"],
     "pp1": ["C04", "C11", "C02"], "pp2": ["C04", "C11", "C02"], "pp3": ["C05", "C02"], "pp4": ["C06", "C02"],
     "al1": ["C02", "C03", "C14"], "al2": ["C02", "C03", "C14"], "al3": ["C02", "C03", "C14"], "al4": ["C02", "C03", "C14"],
-    "bidi1": ["C09", "C04"], "bidi2": ["C09", "C04"], "bidi3": ["C09", "C04"], "bidi4": ["C09", "C04"], "bidi5": ["C09", "C04"],
+    "bidi1": ["C09", "C04", "C18"], "bidi2": ["C09", "C04", "C18"], "bidi3": ["C09", "C04", "C18"], "bidi4": ["C09", "C04", "C18"], "bidi5": ["C09", "C04", "C18"],
 }
 TOOL_FIELDS = {"tiling", "sigexc", "sigascii", "sigidp"}
 
@@ -98,7 +98,7 @@ def _build(full32, seed):
             bad_events.append({"fields": b["fields"], "event": e})
         panics = []
         for ln in lines:
-            if '"panic"' in ln:
+            if '"panic"' in ln or '"PANIC"' in ln:
                 panics.append(json.loads(ln))
         return {"info": info, "bad": bad_events, "panics": panics[:50], "tiled": tiled, "stats": stats, "samples": samples,
                 "tlc": {"distinct": res.distinct, "generated": res.generated, "depth": res.depth, "wall": res.wall},
@@ -128,6 +128,11 @@ def apply_l1(chk, fields_prefixes, full32=False, nontrivial_key=None):
         fs = [f for f in b["fields"] if chk.prop in FIELD_PROPS.get(f, []) and any(f.startswith(p) for p in fields_prefixes)]
         if fs:
             mine.append((fs, b["event"]))
+    # a panic while probing is a wrong observable of every property that looks at this layer
+    for pe in r["panics"][:3]:
+        if chk.prop != "C01":      # C01 reports them itself, with its own wording
+            chk.violation("panic while probing code points U+%04X..U+%04X through the public API" % (pe.get("lo", 0), pe.get("hi", 0)),
+                          {"layer": "L1", "fields": ["panic"], "event": pe})
     for fs, e in mine[:10]:
         chk.violation("code points U+%04X..U+%04X: observable(s) %s differ from the specification's function of the oracle signature"
                       % (e["lo"], e["hi"], ",".join(fs)), {"layer": "L1", "fields": fs, "event": e})
